@@ -212,6 +212,15 @@ func (e *c19Env) checkProgrammed(cs c19Case, cls func(string) string) {
 		}
 		chk("uplink", ue, ul, ulOK, d.ULB)
 		chk("downlink", de, dl, dlOK, d.DLB)
+		// a direction whose posted rate is 0 (nothing is prescribed for it) must at least not be metered with the OTHER
+		// direction's rate: each direction is programmed with its own MBR
+		leak := func(dir string, q *fbQER, own uint64, other uint64, otherOK bool) {
+			if own == 0 && otherOK && other/8 > 0 && q != nil && q.Gate == sliceMeterGateMeter && q.Pir == other/8 {
+				res.finding(cls("zero-rate-carries-other-direction-"+dir), fmt.Sprintf("%s rate posted as 0, yet the %s slice meter limits to %d byte/s - the other direction's MBR", dir, dir, q.Pir), cs)
+			}
+		}
+		leak("uplink", ue, d.UL, dl, dlOK)
+		leak("downlink", de, d.DL, ul, ulOK)
 		return
 	}
 	// UP4: one slice/TC meter cell; the statement's pair (uplink, downlink) meets a single cell, so either direction's
